@@ -4,6 +4,7 @@ import (
 	"encoding/json"
 	"fmt"
 	"os"
+	"strings"
 )
 
 // cmdReplay rebuilds from /repo's current tree and re-executes a replay file.
@@ -23,10 +24,15 @@ func cmdReplay(path string) int {
 		fmt.Fprintln(os.Stderr, "vsim: unreadable replay file:", err)
 		return 2
 	}
-	if needsE5(rf.Property) && probe.Engine != "probe" {
-		return replayE5(path, bts)
-	}
 	b := prepare(rf.Property, false)
+	if needsE5(rf.Property) && probe.Engine != "probe" {
+		ser, rc := b.buildE5()
+		if strings.HasPrefix(rf.Phase, "free") {
+			b = rc
+		} else {
+			b = ser
+		}
+	}
 	if probe.Engine == "probe" {
 		pr := b.runProbe(probe.Probe)
 		if pr.Reproduces {
